@@ -104,9 +104,10 @@ def outcome(fn, construction=False):
 
 
 def entry_points(obj, jd, o_in, sel, cls):
+    """sel: one selector (str) or a list of selectors used together in one granular marking / one call"""
     import stix2
     from stix2 import markings as mk
-    gm = [{"marking_ref": MARK, "selectors": [sel]}]
+    gm = [{"marking_ref": MARK, "selectors": [sel] if isinstance(sel, str) else list(sel)}]
     eps = []
     withgm = dict(o_in)
     withgm["granular_markings"] = gm
@@ -196,6 +197,44 @@ def wl_objects(ctx, rng, i):
                 ctx.violation("selector-addresses-nothing-accepted:" + kind,
                               "%s accepted selector %r which addresses nothing in a %s %s" % (name, s, ver, t),
                               {"version": ver, "entry_point": name, "selector": s, "near_miss": kind, "object": ji, "raised_instead": other})
+    # selector *lists*: every member must address something, wherever it stands in the list
+    valid = [s for s, _, _ in sels]
+    misses = [".".join(segs) for _, segs in near_misses(rng, jd, ji, tbl)]
+    if len(valid) >= 2 and misses:
+        combos = []
+        for _ in range(3):
+            a, b = rng.sample(valid, 2)
+            bad = rng.choice(misses)
+            combos += [("all-valid", [a, b]), ("invalid-last", [a, bad]), ("invalid-first", [bad, a]), ("invalid-middle", [a, bad, b]),
+                       ("invalid-last-of-three", [a, b, bad])]
+        # a second granular marking whose selectors are bad while the first marking is fine
+        for label, lst in combos:
+            expect = "accepted" if label == "all-valid" else "refused"
+            for name, fn in entry_points(obj, jd, o, lst, cls):
+                res, other = outcome(fn, name in ("parse", "constructor"))
+                ctx.ev()
+                ctx.count("list_decisions")
+                ctx.nontrivial(ver, t, "list:" + label, name)
+                if res != expect:
+                    if expect == "refused":
+                        ctx.violation("selector-list-member-unchecked:" + label, "%s accepted the selector list %r although %r addresses nothing (%s %s)" % (
+                            name, lst, [x for x in lst if x in misses], ver, t),
+                            {"version": ver, "entry_point": name, "selectors": lst, "position": label, "object": ji})
+                    else:
+                        ctx.violation("valid-selector-refused", "%s refused the selector list %r whose members all address something" % (name, lst),
+                                      {"version": ver, "entry_point": name, "selectors": lst, "object": jd})
+        # two granular markings in one object: the second one carries the bad selector
+        bad = rng.choice(misses)
+        two = dict(o)
+        two["granular_markings"] = [{"marking_ref": MARK, "selectors": [valid[0]]}, {"marking_ref": MARK, "selectors": [bad]}]
+        import stix2
+        for name, fn in (("parse", lambda: stix2.parse(json.dumps(two), allow_custom=True)), ("constructor", lambda: cls(allow_custom=True, **dict(two)))):
+            res, other = outcome(fn, True)
+            ctx.ev()
+            ctx.count("list_decisions")
+            if res != "refused":
+                ctx.violation("selector-list-member-unchecked:second-marking", "%s accepted an object whose second granular marking has selector %r addressing nothing" % (name, bad),
+                              {"version": ver, "entry_point": name, "granular_markings": two["granular_markings"], "object": ji})
     if ctx.want_sample():
         ctx.sample({"version": ver, "type": t, "selectors_checked": [s for s, _, _ in sels[:12]],
                     "near_misses": [".".join(s) for _, s in near_misses(rng, jd, ji, tbl)[:6]], "entry_points": 14})
@@ -212,6 +251,8 @@ def floors(m, tier):
     for k, n in (("valid_falsy", 150), ("valid_repeated", 50), ("valid_embedded", 300), ("near_miss", 500), ("valid_plain", 500)):
         if c.get(k, 0) < n:
             out.append("only %d %s selectors judged (floor %d)" % (c.get(k, 0), k, n))
+    if c.get("list_decisions", 0) < 2000:
+        out.append("only %d selector-list decisions (floor 2000)" % c.get("list_decisions", 0))
     if len(m["seen"].get("entry points", ())) < 14:
         out.append("not all 14 entry points observed")
     return out
